@@ -67,6 +67,29 @@ pub mod mock {
             SystemTime(v)
         }
     }
+    // the rest of the std API a generated body may reasonably use
+    #[derive(Debug)]
+    pub struct SystemTimeError(pub Duration);
+    impl SystemTimeError { pub fn duration(&self) -> Duration { self.0 } }
+    impl SystemTime {
+        pub fn duration_since(&self, earlier: SystemTime) -> Result<Duration, SystemTimeError> {
+            if self.0 >= earlier.0 { Ok(Duration(self.0 - earlier.0)) } else { Err(SystemTimeError(Duration(earlier.0 - self.0))) }
+        }
+        pub fn checked_add(&self, d: Duration) -> Option<SystemTime> { Some(SystemTime(self.0 + d.0)) }
+        pub fn checked_sub(&self, d: Duration) -> Option<SystemTime> { if self.0 >= d.0 { Some(SystemTime(self.0 - d.0)) } else { None } }
+    }
+    impl Duration {
+        pub const ZERO: Duration = Duration(0);
+        pub fn as_nanos(&self) -> u128 { self.0 }
+        pub fn as_micros(&self) -> u128 { self.0 / 1_000 }
+        pub fn as_millis(&self) -> u128 { self.0 / 1_000_000 }
+        pub fn as_secs(&self) -> u64 { (self.0 / 1_000_000_000) as u64 }
+        pub fn subsec_nanos(&self) -> u32 { (self.0 % 1_000_000_000) as u32 }
+        pub fn is_zero(&self) -> bool { self.0 == 0 }
+    }
+    impl core::ops::Add<Duration> for Duration { type Output = Duration; fn add(self, d: Duration) -> Duration { Duration(self.0 + d.0) } }
+    impl core::ops::Sub<Duration> for SystemTime { type Output = SystemTime; fn sub(self, d: Duration) -> SystemTime { SystemTime(self.0 - d.0) } }
+    impl core::ops::SubAssign<Duration> for SystemTime { fn sub_assign(&mut self, d: Duration) { self.0 -= d.0; } }
     impl core::ops::AddAssign<Duration> for SystemTime { fn add_assign(&mut self, d: Duration) { self.0 += d.0; } }
     impl core::ops::Add<Duration> for SystemTime { type Output = SystemTime; fn add(self, d: Duration) -> SystemTime { SystemTime(self.0 + d.0) } }
 }
